@@ -4,6 +4,7 @@ R10.1 the suffix-priority test is separator-aware (name-kind lint on the resolve
 R10.2 raise discipline: several matches -> only a candidate proven minimal over *all* matches is returned, otherwise
       KeyError; no match -> KeyError; positional picks only when exactly one match remains;
 R10.3 every name-access entry point routes through the one resolver; __contains__ converts exactly KeyError to False.
+R10.7 the duplicate-input test is an exact-key test;  R10.8 a candidate matches without its group by the component after the last `:`.
 """
 from __future__ import annotations
 
